@@ -179,6 +179,77 @@ theorem erased_prefix_exports_prefix (c c' : Pipeline.Conn) (kl : List Keylog.Ke
     exact List.IsPrefix.map _ (Props.C08.session_prefix_monotone _ _ _ _ _)
   exact ⟨key false, key true⟩
 
+/-- every record released while packets of one direction are processed is a record of that direction -/
+theorem released_all_dir (server : Endpoint) (d : Bool) (T : List Pkt) (hT : ∀ p ∈ T, (p.src == server) = d) :
+    ∀ R, ∀ r ∈ released info server R T, r.2 = d := by
+  induction T with
+  | nil => intro R r hr; simp [released] at hr
+  | cons p T ih =>
+    intro R r hr
+    simp only [released, List.mem_append] at hr
+    rcases hr with hr | hr
+    · simp only [reasmPkt, List.mem_map] at hr
+      obtain ⟨q, _, rfl⟩ := hr
+      exact hT p (by simp)
+    · exact ih (fun q hq => hT q (by simp [hq])) _ r hr
+
+theorem dirRaw_append (d : Bool) (a b : List (Session.Rec × Bool)) : dirRaw d (a ++ b) = dirRaw d a ++ dirRaw d b := by
+  simp [dirRaw]
+
+theorem dirRaw_all (d : Bool) (l : List (Session.Rec × Bool)) (h : ∀ r ∈ l, r.2 = d) : dirRaw d l = l.map (·.1.raw) := by
+  unfold dirRaw
+  rw [List.filter_eq_self.mpr (fun r hr => by simp [h r hr])]
+
+theorem erase_all (d : Bool) (l : List (Session.Rec × Bool)) (h : ∀ r ∈ l, r.2 = d) :
+    l.map erase = (l.map (·.1.raw)).map fun b => (b, d) := by
+  rw [List.map_map]
+  apply List.map_congr_left
+  intro r hr
+  simp [erase, h r hr]
+
+/-- **C03, prefix clause, TLS victim, missing segments in the tail (`delete`, `shorten` of the last segments).** The
+    victim's conversation `c` holds the packets `A ++ T`; under the fault it holds `A ++ T'` (the same object otherwise).
+    `T` and `T'` are packets of ONE direction `d` (a transfer in one direction: the other side's pure ACKs carry no payload
+    and never reach the session). `hfull` / `hsub`: what direction `d`'s reassembler releases without and with the fault —
+    all records `rs`, resp. the first `n` of them (`delete_releases_prefix`: any packets of `T` missing in `T'`,
+    retransmissions included). Then per direction the stream the faulted conversation exports is a byte PREFIX of the
+    stream the unfaulted one exports (`convStreams_spec`: what the exported frames reassemble to). -/
+theorem export_victim_delete_tls (c : Pipeline.Conn) (A T T' : List Pkt) (kl : List Keylog.Key) (d : Bool)
+    (rs : List Bytes) (n : Nat) (hc : c.pkts = A ++ T)
+    (hT : ∀ p ∈ T, (p.src == c.server) = d) (hT' : ∀ p ∈ T', (p.src == c.server) = d)
+    (hne : ∀ p ∈ A ++ T, p.payload ≠ []) (hne' : ∀ p ∈ A ++ T', p.payload ≠ [])
+    (hfull : (Reassembly.run (dirSegs info c.server d (A ++ T))).map (·.1) = rs)
+    (hsub : (Reassembly.run (dirSegs info c.server d (A ++ T'))).map (·.1) = rs.take n) :
+    (convStreams H P info { c with pkts := A ++ T' } kl).1 <+: (convStreams H P info c kl).1 ∧
+    (convStreams H P info { c with pkts := A ++ T' } kl).2 <+: (convStreams H P info c kl).2 := by
+  obtain ⟨opts, server, client, sm, cm, v6, pkts⟩ := c
+  simp only at hc hT hT' hfull hsub
+  subst hc
+  apply erased_prefix_exports_prefix H P info ⟨opts, server, client, sm, cm, v6, A ++ T⟩
+    ⟨opts, server, client, sm, cm, v6, A ++ T'⟩ kl rfl
+  have e1 := conv_direction_run info ⟨opts, server, client, sm, cm, v6, A ++ T⟩ d hne
+  have e2 := conv_direction_run info ⟨opts, server, client, sm, cm, v6, A ++ T'⟩ d hne'
+  simp only [hfull, hsub, connRecs] at e1 e2
+  simp only [connRecs]
+  rw [released_append] at e1 e2 ⊢
+  rw [released_append]
+  simp only [List.map_append]
+  rw [List.prefix_append_right_inj]
+  have hd := released_all_dir info server d T hT
+    (reasmFinal info server (Reassembly.St.init, Reassembly.St.init) A)
+  have hd' := released_all_dir info server d T' hT'
+    (reasmFinal info server (Reassembly.St.init, Reassembly.St.init) A)
+  rw [dirRaw_append, dirRaw_all d _ hd] at e1
+  rw [dirRaw_append, dirRaw_all d _ hd'] at e2
+  rw [erase_all d _ hd, erase_all d _ hd']
+  apply List.IsPrefix.map
+  have : dirRaw d (released info server (Reassembly.St.init, Reassembly.St.init) A) ++
+        (released info server (reasmFinal info server (Reassembly.St.init, Reassembly.St.init) A) T').map (·.1.raw) <+:
+      dirRaw d (released info server (Reassembly.St.init, Reassembly.St.init) A) ++
+        (released info server (reasmFinal info server (Reassembly.St.init, Reassembly.St.init) A) T).map (·.1.raw) := by
+    rw [e1, e2]; exact List.take_prefix _ _
+  exact (List.prefix_append_right_inj _).mp this
+
 end Conv
 
 end TLX.Props.ExportFaults2
